@@ -62,6 +62,36 @@ func c18Static(c *Ctx) {
 				"Encode/Decode changed the value of a default parameters object", map[string]interface{}{"ts": ts.Short})
 		}
 	}
+	// a shared parameters object passed to Decode of streams that were written with OTHER parameter values
+	// (two callers of one Transcoder decoding different studies): Decode must leave the shared object alone,
+	// otherwise concurrent decodes write it and later calls see another caller's value
+	for _, ts := range AllTS() {
+		reg, err := Registry(ts)
+		if err != nil {
+			continue
+		}
+		g := Geo{W: 9, H: 8, SPP: 1, BitsAllocated: 8, BitsStored: 8}
+		frames := [][]byte{GenFrame(rng, g, 1)}
+		q := reg.GetDefaultParameters()
+		if q == nil {
+			continue
+		}
+		q.SetParameter("near", 1)
+		q.SetParameter("quality", 77)
+		enc, err := Encode(reg, g, frames, q)
+		if err != nil {
+			continue
+		}
+		p, ref := reg.GetDefaultParameters(), reg.GetDefaultParameters()
+		c.R.Case("c18:static-foreign:"+ts.Short, true, "c18.static")
+		c.R.Oracle("c18_params_unchanged")
+		_, _ = Decode(reg, g, enc, p)
+		if !reflect.DeepEqual(p, ref) {
+			c.R.Fail("oracle", "c18_params_unchanged", "c18:"+ts.Short+":shared-parameters-modified-by-foreign-stream",
+				"Decode of a stream written with other parameter values changed the shared default parameters object",
+				map[string]interface{}{"ts": ts.Short, "near": 1, "quality": 77})
+		}
+	}
 	// the codec's own default parameter objects as call arguments (special.go)
 	for _, ts := range AllTS() {
 		reg, err := Registry(ts)
